@@ -150,6 +150,56 @@ where T: EucRing + Bridge, for<'x> &'x T: EucRingOps<T>, T::O: OEuc {
                 }
             }
         }
+        // coordinates of an arbitrary cycle z = sum a_k gen(k) (+ a boundary): exact in the free part; every torsion
+        // coordinate congruent to a_k modulo ITS OWN order (vectorize and vectorize_euc), and zero after reduction
+        // whenever the order divides a_k (the reduced coordinate map separates the zero class from the others)
+        if dim > 0 {
+            for _ in 0..3 {
+                let coeffs: Vec<T::O> = (0..dim).map(|q| {
+                    let c0 = match rng.below(6) {
+                        0 | 1 => T::O::o0(),
+                        2 => T::O::from_i64(rng.urange(1, 7) as i64 - 3),
+                        3 if q >= s.rank() && q > s.rank() => tors[q - s.rank() - 1].clone(),          // the previous order
+                        4 if q >= s.rank() => tors[q - s.rank()].mul(&T::O::from_i64(rng.urange(0, 2) as i64)), // a multiple of its own
+                        _ => if pal.is_empty() { T::O::o1() } else { rng.choose(&pal).clone() },
+                    };
+                    if T::try_from_o(&c0).is_some() { c0 } else { T::O::o1() }
+                }).collect();
+                let cs: Vec<T> = coeffs.iter().map(|a| T::try_from_o(a).unwrap()).collect();
+                let bj = if i > 0 && dims[i - 1] > 0 && rng.chance(1, 2) { Some(rng.below(dims[i - 1])) } else { None };
+                let r = guarded(|| {
+                    use num_traits::Zero;
+                    let mut z: Lc<EnumGen<isize>, T> = Lc::zero();
+                    for (k, a) in cs.iter().enumerate() { if !a.is_zero() { let mut g = s.gen(k); g *= a; z += &g } }
+                    if let Some(j) = bj { let e: Lc<EnumGen<isize>, T> = Lc::from((EnumGen((i - 1) as isize, j), T::one())); z += &c.d((i - 1) as isize, &e) }
+                    (s.vectorize(&z), s.vectorize_euc(&z))
+                });
+                match r {
+                    Ok((v, ve)) => {
+                        let (vo, veo) = (spvec_to_o(&v), spvec_to_o(&ve));
+                        for (route, w) in [("vectorize", &vo), ("vectorize_euc", &veo)] {
+                            let ok = w.len() == dim && (0..dim).all(|q| if q < s.rank() { w[q] == coeffs[q] } else {
+                                let t = &tors[q - s.rank()];
+                                t.divides(&w[q].sub(&coeffs[q])) && (route == "vectorize" || !t.divides(&coeffs[q]) || w[q].is0())
+                            });
+                            if !ok {
+                                ctx.violation(&format!("C07/{tname}/cycle-coordinates-{route}"),
+                                    &format!("H_{i} (rank {}, torsion {:?}): {route} of z = sum a_k gen(k){} with a = {:?} is {:?}", s.rank(), tors.iter().map(|x| x.show()).collect::<Vec<_>>(),
+                                        if bj.is_some() { " + boundary" } else { "" }, coeffs.iter().map(|x| x.show()).collect::<Vec<_>>(), w.iter().map(|x| x.show()).collect::<Vec<_>>()),
+                                    wit(i, json!(null)));
+                                return
+                            }
+                        }
+                        if tors.len() >= 2 { ctx.count("cycle_coordinates_checked_with_two_or_more_torsion_summands", 1) }
+                    }
+                    Err(p) => {
+                        if !unbounded && p.is_overflow() { ctx.inconclusive("overflow_machine_int"); return }
+                        ctx.violation(&format!("C07/{tname}/vectorize-panic"), &format!("vectorize of a combination of generators panicked: {}", p.brief()), wit(i, json!(null)));
+                        return
+                    }
+                }
+            }
+        }
     }
 
     // route 1b: the whole-complex computation with and without coordinate maps must report the same groups
